@@ -162,6 +162,7 @@ def ex_encoding(ctx, cats, placeholders, header, spelling, full=True):
     try:
         expected = write_file(path, cats, placeholders, header, spelling)
         rc = {"exec": "encoding", "args": {"cats": cats, "placeholders": placeholders, "header": header, "spelling": spelling}}
+        ctx.current_case = rc
         tags = {"header": header, "spelling": spelling, "has_empty": any(len(c) == 0 for c in cats),
                 "has_placeholder": any(p and not c for p, c in zip(placeholders, cats)), "n": min(len(cats), 6)}
         run_file(ctx, path, expected, rc, tags, wit=_WIT[0], full=full)
@@ -192,6 +193,7 @@ def ex_reject(ctx, cats, swap_at):
                 for (eid, ms, lat, lon, depth, mag) in cats[cid]:
                     w.writerow([repr(lon), repr(lat), repr(mag), fmt_time(ms, True), repr(depth), cid, eid])
         rc = {"exec": "reject", "args": {"cats": cats, "swap_at": swap_at}}
+        ctx.current_case = rc
         ok, res, tb = ctx.call(lambda: [decoded(c) for c in CSEPCatalog.load_ascii_catalogs(path)])
         ctx.mon("stream:rejection", 1)
         ctx.count(1)
